@@ -2412,7 +2412,9 @@ func fixUntyped(nod *node, sc *scope) {
 			return true
 		}
 		n.typ = nod.typ
-		if n.findex >= 0 {
+		if n.findex >= 0 && n.level == 0 && n.findex < len(sc.types) {
+			// Only for a result stored in the frame of the current scope, not for
+			// a parenthesized global variable of a type not yet fixed.
 			sc.types[n.findex] = nod.typ.frameType()
 		}
 		return true
